@@ -3,7 +3,7 @@
 
    spec_op ver o s = the value the client call returns and the state the reference server is left with (its store,
    active script and configuration are what matters), or None where the specification says nothing (CHECKSCRIPT
-   without VERSION, connect / capability).  GETSCRIPT of a missing script and LOGOUT return None (VNone).
+   without VERSION, connect).  CAPABILITY returns the capability lines the server writes for its TLS state.  GETSCRIPT of a missing script and LOGOUT return None (VNone).
    ver: the server announced VERSION; without it the client renames by emulation (RenameAbs.rename_abs). *)
 From Coq Require Import String.
 From Coq Require Import List NArith Bool.
@@ -32,6 +32,7 @@ Definition spec_op (ver : bool) (o : op) (s : sstate) : option (value * sstate) 
   | OListscripts => Some (VListing (fst (listing_of s)) (snd (listing_of s)), s)
   | OGetscript n => match assoc_get n (s_store s) with Some c => Some (VBytes (norm c), s) | None => Some (VNone, s) end
   | OLogout => Some (VNone, s)
+  | OCapability => Some (VBytes (capabilities_bytes s), s)
   | _ =>
       match op_request o with
       | Some (verb, pargs) =>
